@@ -131,7 +131,7 @@ def oracle(ctx, deep):
                 w = core.unhx(x)
                 if len(w) >= 3:
                     secrets.append(("a word of the list", w))
-        check(a, secrets, {"case": c["meta"], "line": wlgen.wlgen_line(c["list"], c["length"], c["sep"], c["cap"], c["budget"], c["words"], shadow=c.get("shadow")), "observed": a[-400:]})
+        check(a, secrets, {"case": c["meta"], "line": wlgen.case_line(c), "observed": a[-400:]})
     for c, a, b in getattr(ctx, "list_results", []):
         if a is None:
             continue
@@ -158,7 +158,7 @@ def oracle(ctx, deep):
             check(a, secrets, {"recipe": meta["recipe"], "line": l, "observed": a[-400:], "env": env})
             if ctx.violations:
                 return
-        wl = [(c, wlgen.wlgen_line(c["list"], c["length"], c["sep"], c["cap"], c["budget"], c["words"], shadow=c.get("shadow"))) for c, a, b in getattr(ctx, "wl_results", [])[:600]]
+        wl = [(c, wlgen.case_line(c)) for c, a, b in getattr(ctx, "wl_results", [])[:600]]
         res, _ = core.run_impl(["e%d %s" % (i, l) for i, (c, l) in enumerate(wl)], extra_env=env)
         for i, (c, l) in enumerate(wl):
             a = res.get("e%d" % i)
